@@ -184,7 +184,7 @@ type sizeDims struct {
 func sizeDimsFor(tier string) sizeDims {
 	if tier == "thorough" {
 		return sizeDims{
-			strings:  sweepSizes(300, 500, 512, 1000, 1024, 2048, 4096, 8192, 10000, 65536, 100000, 1<<20),
+			strings:  sweepSizes(600, 1000, 1024, 2048, 4096, 8192, 10000, 65536, 100000, 1<<20),
 			widths:   sweepSizes(140, 200, 256, 500, 512, 1000, 1024, 4096),
 			arrays:   sweepSizes(140, 200, 256, 500, 512, 1000, 1024, 4096),
 			depths:   sweepSizes(140, 256, 512, 1000, 2048),
@@ -192,7 +192,7 @@ func sizeDimsFor(tier string) sizeDims {
 		}
 	}
 	return sizeDims{
-		strings:  sweepSizes(130, 200, 256, 500, 512, 1000, 1024, 4096, 10000, 65536),
+		strings:  sweepSizes(260, 500, 512, 1000, 1024, 4096, 10000, 65536),
 		widths:   sweepSizes(100, 128, 200, 256, 500, 1000, 1024),
 		arrays:   sweepSizes(100, 128, 200, 256, 500, 1000, 1024),
 		depths:   append(sweepSizes(70, 100, 128), 1000, 1001, 1002),
